@@ -32,10 +32,39 @@ func main() {
 	verif := flag.String("verif", "/verif", "verification directory (evidence, out, known findings)")
 	replay := flag.String("replay", "", "replay file: re-decide just that obligation")
 	list := flag.Bool("list", false, "list properties and rules")
+	listJSON := flag.Bool("list-json", false, "list properties, rules and explanations as JSON")
 	noEvidence := flag.Bool("no-evidence", false, "do not write the evidence file (used by the self test)")
 	verbose := flag.Bool("v", false, "print every obligation")
 	flag.Parse()
 
+	if *listJSON {
+		type rj struct {
+			ID, Title string
+			Floor     int
+		}
+		type pj struct {
+			ID, Technique, Explanation string
+			Assumptions                []string
+			Rules                      []rj
+		}
+		var out []pj
+		var ids []string
+		for id := range properties {
+			ids = append(ids, id)
+		}
+		sort.Strings(ids)
+		for _, id := range ids {
+			p := properties[id]
+			e := pj{ID: id, Technique: p.Technique, Explanation: p.Explanation, Assumptions: p.Assumptions}
+			for _, r := range p.Rules {
+				e.Rules = append(e.Rules, rj{r.ID, r.Title, r.Floor})
+			}
+			out = append(out, e)
+		}
+		b, _ := json.MarshalIndent(out, "", " ")
+		fmt.Println(string(b))
+		return
+	}
 	if *list {
 		var ids []string
 		for id := range properties {
